@@ -257,6 +257,7 @@ Proof.
   fold (swap_st0 s specified) in H.
   match type of H with rbind ?c _ = _ => destruct c as [st| |] eqn:El; cbn [rbind] in H; try discriminate end.
   destruct (Z.ltb_spec (ss_remaining st) 0); [discriminate|].
+  destruct (0 <? ss_remaining st); [discriminate|].
   exists limit, st. split; [reflexivity|]. split; [exact El|].
   destruct ei.
   - destruct (of_opt (dsub (dec_of_int specified) (ss_remaining st))) as [used| |]; cbn [rbind] in H; try discriminate.
@@ -359,6 +360,7 @@ Lemma allocate_flow s coins s' : FeeWF s -> len4 coins -> allocate_incentive s c
 Proof.
   intros W Lc H. unfold allocate_incentive in H.
   destruct (has_position (a_pool s)); cbn [negb] in H; [|discriminate].
+  destruct (p_liq (a_pool s) <=? 0); [discriminate|].
   destruct (vquo_dec_trunc (map dec_of_int coins) (p_liq (a_pool s))) as [g|] eqn:Eg; cbn [of_opt rbind] in H; [|discriminate].
   destruct (vadd (a_acc_value s) g) as [v|] eqn:Ev; cbn [of_opt rbind] in H; [|discriminate].
   destruct (vquo_dec_trunc_nth _ _ _ Eg) as (_ & Lg & _). rewrite map_length in Lg.
